@@ -80,7 +80,7 @@ class LexStream(Stream):
 
         rng = ctx.rng_for("lex")
         out = []
-        for _ in range(ctx.scale(1200, 10000)):
+        for _ in range(ctx.scale(1200, 40000)):
             comments = rng.chance(40)
             ps = gen_pieces(rng, comments)
             if not ps:
@@ -203,7 +203,7 @@ class RenderStream(Stream):
     def cases(self, ctx):
         rng = ctx.rng_for("render")
         out = []
-        for _ in range(ctx.scale(500, 4000)):
+        for _ in range(ctx.scale(500, 12000)):
             c = gen_render_case(rng)
             if c is not None:
                 out.append(c)
@@ -483,7 +483,7 @@ class InterleaveStream(Stream):
     def cases(self, ctx):
         rng = ctx.rng_for("interleave")
         out = []
-        for _ in range(ctx.scale(4, 16)):
+        for _ in range(ctx.scale(4, 40)):
             n = rng.range(160, 185) if rng.chance(75) else rng.range(3, 20)
             specs = gen_env_specs(rng, n)
             sched = []
@@ -654,7 +654,7 @@ class KeyClashStream(InterleaveStream):
     def cases(self, ctx):
         rng = ctx.rng_for("keyclash")
         bases = [list(b) for b in CLASH_BASES]
-        for _ in range(ctx.scale(6, 40)):
+        for _ in range(ctx.scale(6, 120)):
             d = dp.gen_delims(rng, IL_TEMPLATES, rng.chance(40), tries=200)
             if d is not None and all(len(x) >= 2 for x in d if x):
                 bases.append(d)
@@ -701,7 +701,7 @@ class ImplicitStream(Stream):
     def cases(self, ctx):
         rng = ctx.rng_for("implicit")
         out = []
-        for _ in range(ctx.scale(6, 40)):
+        for _ in range(ctx.scale(6, 120)):
             n = rng.range(11, 16)
             cfgs = []
             for _ in range(n):
@@ -756,7 +756,7 @@ class MemoStream(Stream):
     def cases(self, ctx):
         rng = ctx.rng_for("memo")
         out = []
-        for _ in range(ctx.scale(150, 1000)):
+        for _ in range(ctx.scale(150, 5000)):
             m = rng.choice([0, 1, 2, 3, 5, 10, 128])
             nk = rng.range(1, 2 * m + 4) if m < 100 else rng.range(100, 200)
             out.append({"maxsize": m, "keys": [rng.below(nk) for _ in range(rng.range(1, 40) if m < 100 else rng.range(200, 500))]})
